@@ -4,7 +4,10 @@ import (
 	"bytes"
 	"fmt"
 	"runtime"
+	"path/filepath"
 	"runtime/debug"
+	"sort"
+	"strings"
 	"sync"
 	"sync/atomic"
 	"time"
@@ -32,6 +35,10 @@ func runC04(c *rt.C) {
 	}
 	if c.Index >= 6+len(slMicros) && c.Index < 6+len(slMicros)+4 {
 		nodeListLifecycle(c, mem)
+		return
+	}
+	if c.Index == 6+len(slMicros)+12 {
+		c04DeltaRefresh(c)
 		return
 	}
 	if c.Index >= 6+len(slMicros)+4 && c.Index < 6+len(slMicros)+12 {
@@ -95,7 +102,7 @@ func init() {
 		ID: "C04", Level: "exploration",
 		Technique: "sanitizer-style runtime monitoring: MMU-enforced page-guard allocator and poison/quarantine allocator passed through Config.UseMemoryMgmt, exact shadow live-set, 'freed while still linked' walk on every free, reachable ⊆ live-set at quiescent checkpoints, held-node re-reads",
 		Rule: "user-managed memory only, alternating pageguard / poison. Two of three cases run the ownership engine (2-8 writers, 4-64 keys, 2-6 scanner goroutines with refresh rates {0,1,2,7} that hold nodes and re-read them, concurrent Visitors, snapshot churn closed in random/newest-first/oldest-last order from concurrent goroutines, GC() storms, hook and allocator perturbation); every third case runs the contention engine (2-8 writers on 1-8 shared keys, same-epoch and cross-epoch deletes of one node by several writers). " +
-			"Cases 20-27 park an accessor (Writer.GetNode, snapshot Iterator.Seek, Writer.Put2, Writer.Delete) inside the user-supplied key comparator right after it loaded a successor pointer, delete that successor (a current-epoch item, flushed at once) from another writer, and resume: the accessor must not touch released memory (hook-free). Cases 16-19 chain nodes in the library's NodeList and delete one of them in its own epoch (only that node may be released). Cases 0-5 are deterministic rendezvous schedules (insert of a tall node parked before linking level k ‖ delete+flush of that node), cases 6-15 enumerate the insert/delete micro-scenarios of C13 under the serialized controller in user-managed memory (after every schedule nothing released may still be linked). A fault inside the guard region, a double/invalid free, damaged poison or canary, a node freed while reachable from the head at any level, or a linked node that is not a live block is a violation. evaluations = blocks freed under guard; distinct = workload configuration / scan-age tuples",
+			"Case 28 is the delta-backup refresh schedule (StoreToDisk with delta interleaving scans through a placeholder snapshot, so only the visitor's token protects the items; the visitor is parked inside Iterator.Refresh after dropping its token while its cursor item is deleted, collected and released; the restored backup must still be exact). Cases 20-27 park an accessor (Writer.GetNode, snapshot Iterator.Seek, Writer.Put2, Writer.Delete) inside the user-supplied key comparator right after it loaded a successor pointer, delete that successor (a current-epoch item, flushed at once) from another writer, and resume: the accessor must not touch released memory (hook-free). Cases 16-19 chain nodes in the library's NodeList and delete one of them in its own epoch (only that node may be released). Cases 0-5 are deterministic rendezvous schedules (insert of a tall node parked before linking level k ‖ delete+flush of that node), cases 6-15 enumerate the insert/delete micro-scenarios of C13 under the serialized controller in user-managed memory (after every schedule nothing released may still be linked). A fault inside the guard region, a double/invalid free, damaged poison or canary, a node freed while reachable from the head at any level, or a linked node that is not a live block is a violation. evaluations = blocks freed under guard; distinct = workload configuration / scan-age tuples",
 		Assumptions: []string{"a use after free is observed only if it happens while the block is still under guard (pageguard never reuses addresses; poison quarantines for the life of the child process)", "node handles are used by the harness only while it holds an accessor token or the item is undeleted"},
 		Cases: func(t string) int {
 			if t == "thorough" {
@@ -347,4 +354,164 @@ func c04ParkedAccessor(c *rt.C, mem string, api int) {
 		c.Inconclusive("the comparator window was never reached")
 	}
 	c.Sample(map[string]interface{}{"directed": "comparator-parked accessor", "api": apiName, "mem": mem, "trials": trials, "window_reached": hits})
+}
+
+// ---------------------------------------------------------------------------
+// delta-interleaved backup: the visitor's auto-refresh while nothing but its token protects the items
+//
+// With delta interleaving StoreToDisk releases the snapshot and scans through a private placeholder,
+// so the items under the scan are protected only by the scanning iterator's accessor token. The
+// visitor refreshes that token every 10000 items. The schedule: a visitor is parked inside
+// Iterator.Refresh right before it drops its old token; the item under its cursor is deleted, the next
+// snapshot is created and closed, the collection worker unlinks and flushes it; once the visitor is the
+// last accessor in the way it resumes, its own Release terminates the session and the free worker
+// releases the item while the visitor is still inside that Release. The restored backup must still
+// be exactly the stored snapshot (the item comes back through the delta file) and nothing may fault.
+func c04DeltaRefresh(c *rt.C) {
+	const nKeys = 250000 // 16 shards, most of them > 10000 items: the first visitor worker that refreshes is parked, the others run to completion
+	db := OpenDB(DBOpt{Mem: "poison", Delta: true})
+	db.A.Stacks = false
+	w := db.N.NewWriter()
+	want := make([]Entry, nKeys)
+	for i := 0; i < nKeys; i++ {
+		k := []byte(fmt.Sprintf("key-%08d", i))
+		w.Put(k)
+		want[i] = Entry{string(k), k}
+	}
+	s, _ := db.N.NewSnapshot()
+	var lastDelivered sync.Map // goroutine id of the visitor worker -> last item it delivered
+	var parkedGoid int64
+	var armed int32 = 1
+	parked := make(chan struct{})
+	resume := make(chan struct{})
+	var once sync.Once
+	// stage 1: the first visitor worker whose Iterator.Refresh is about to drop its token is parked right
+	// before the decrement (arg = its session). stage 2: the same goroutine is held again after the ordered
+	// cleanup it triggers (still inside that Release) until the free worker has released the item.
+	var parkedSession unsafe.Pointer
+	var itemPtr unsafe.Pointer
+	stage2 := make(chan struct{})
+	var once2 sync.Once
+	inRefresh := func() bool {
+		var pcs [24]uintptr
+		n := runtime.Callers(3, pcs[:])
+		fr := runtime.CallersFrames(pcs[:n])
+		for {
+			f, more := fr.Next()
+			if strings.HasSuffix(f.Function, "nitro.(*Iterator).Refresh") {
+				return true
+			}
+			if !more {
+				return false
+			}
+		}
+	}
+	skiplist.VerifSetHook(func(id int, arg unsafe.Pointer) {
+		switch id {
+		case skiplist.VpRelBeforeDec:
+			if atomic.LoadInt32(&armed) == 1 && inRefresh() {
+				once.Do(func() {
+					atomic.StoreInt32(&armed, 0)
+					atomic.StoreInt64(&parkedGoid, goid())
+					parkedSession = arg
+					close(parked)
+					<-resume
+				})
+			}
+		case skiplist.VpRelUnlocked:
+			if atomic.LoadInt64(&parkedGoid) != 0 && goid() == atomic.LoadInt64(&parkedGoid) {
+				once2.Do(func() { <-stage2 })
+			}
+		}
+	})
+	defer skiplist.VerifSetHook(nil)
+	dir := filepath.Join(c.Tmp, "bk")
+	errc := make(chan error, 1)
+	go func() {
+		// 16 visitor workers, one per shard: each refreshes its token after 10000 items. The first one to
+		// do so is parked; the others finish and drop their tokens, so nothing but the parked worker's
+		// (already dropped) token could protect the items under its cursor.
+		errc <- db.N.StoreToDisk(dir, s, 16, func(e *nitro.ItemEntry) {
+			lastDelivered.Store(goid(), string(e.Item().Bytes()))
+		})
+	}()
+	var victim string
+	select {
+	case <-parked:
+		lv, _ := lastDelivered.Load(atomic.LoadInt64(&parkedGoid))
+		last, _ := lv.(string)
+		idx := sort.Search(len(want), func(i int) bool { return want[i].Key > last })
+		if idx >= len(want) {
+			close(resume)
+			close(stage2)
+			<-errc
+			c.Inconclusive("visitor parked at the very end of the snapshot")
+			return
+		}
+		victim = want[idx].Key
+		n := w.GetNode([]byte(victim))
+		if n == nil {
+			close(resume)
+			close(stage2)
+			<-errc
+			c.Inconclusive("cursor item not found")
+			return
+		}
+		itemPtr = n.Item()
+		if !w.Delete([]byte(victim)) {
+			c.Inconclusive("delete of the cursor item failed")
+		}
+		s2, _ := db.N.NewSnapshot()
+		s2.Close()
+		db.N.GC()
+		// wait until the parked visitor is the last accessor standing in the way: its session has been
+		// closed (count = offset + 1) and every earlier session has been destructed
+		bs := (*skiplist.BarrierSession)(parkedSession)
+		ready := false
+		for i := 0; i < 20000 && !ready; i++ {
+			live, seq, _, _ := bs.VerifSessionInfo()
+			_, freeSeq, _, _ := db.N.VerifStore().GetAccesBarrier().VerifBarrierState()
+			ready = seq != 0 && live == (1<<31-1)/2+1 && freeSeq == seq-1
+			if !ready {
+				time.Sleep(500 * time.Microsecond)
+			}
+		}
+		close(resume) // the visitor's decrement now terminates the session: ordered cleanup, destructor, free worker
+		freed := false
+		for i := 0; i < 8000 && !freed; i++ {
+			freed = db.A.WasFreed(itemPtr)
+			if !freed {
+				time.Sleep(500 * time.Microsecond)
+			}
+		}
+		c.Count("visitor_was_last_accessor_of_the_flushed_session", map[bool]int64{true: 1, false: 0}[ready])
+		c.Count("cursor_item_released_before_the_visitor_left_its_release", map[bool]int64{true: 1, false: 0}[freed])
+		close(stage2)
+	case err := <-errc:
+		c.Inconclusive(fmt.Sprintf("the visitor never refreshed (StoreToDisk returned %v)", err))
+		return
+	}
+	if err := <-errc; err != nil {
+		c.Inconclusive("StoreToDisk failed: " + err.Error())
+		return
+	}
+	skiplist.VerifSetHook(nil)
+	c.Evals(1)
+	witness := map[string]interface{}{"keys": nKeys, "cursor_item_deleted": victim}
+	for _, v := range db.A.Violations() {
+		c.Violate("alloc-"+v.Kind, fmt.Sprintf("%+v", v), witness)
+	}
+	fresh := db.Fresh()
+	res, stuck, inc := loadWithProbe(fresh, dir, 4)
+	if inc || stuck || res.pan != nil || res.err != nil {
+		c.Violate("refresh-after-release/load", fmt.Sprintf("delta backup taken while the cursor item of a refreshing visitor was reclaimed does not load: stuck=%v panic=%v err=%v", stuck, res.pan, res.err), witness)
+		return
+	}
+	got, _ := Scan(res.snap, 0)
+	if d := DiffScan(got, want); d != "" {
+		c.Violate("refresh-after-release/content", "delta backup taken while the cursor item of a refreshing visitor was reclaimed (the visitor had dropped its token inside Iterator.Refresh): the scan continued from the wrong place; restored content differs: "+d, witness)
+	}
+	c.Sig("delta-refresh/victim-freed")
+	c.Sample(map[string]interface{}{"directed": "delta backup: visitor parked in Iterator.Refresh while its cursor item is deleted, collected and released", "keys": nKeys, "victim": victim, "restored_items": len(got)})
+	res.snap.Close()
 }
